@@ -625,10 +625,65 @@ def run_exchange(case):
 GET_PROBE = {"method": "GET", "target": b"/probe".hex(), "version": "HTTP/1.0", "headers": []}
 
 
-def probe(srv_port, bind, baseline, raised, deadline):
+GET_PROBE_11 = {"method": "GET", "target": b"/probe".hex(), "version": "HTTP/1.1", "headers": [["Host", "x"]]}
+
+
+def _response_complete(raw):
+    """head received and as many body bytes as its Content-Length announces"""
+    head, sep, body = raw.partition(b"\r\n\r\n")
+    if not sep:
+        return False
+    for line in head.split(b"\r\n")[1:]:
+        k, _, v = line.partition(b":")
+        if k.strip().lower() == b"content-length" and v.strip().isdigit():
+            return len(body) >= int(v.strip())
+    return False
+
+
+def probe(srv_port, bind, baseline, raised, deadline, version="1.0"):
     # 1. the main thread, immediately after the call returned
     alive = bool(main_threads(baseline))
     host = client_host_for(bind)
+    if version == "1.1":
+        # an HTTP/1.1 client that does not ask for the connection to be closed and stays connected after the
+        # response: the worker thread must still end with its response (the server closes the connection)
+        s = connect(host, srv_port, deadline)
+        accepts = s is not None
+        serves = kept_open = False
+        if s is not None:
+            try:
+                try:
+                    s.sendall(request_bytes(GET_PROBE_11))
+                    seen = {"raw": b"", "t": None}
+                    out = bytearray()
+                    eof = False
+                    while time.monotonic() < deadline:
+                        r, _, _ = select.select([s], [], [], 0.05)
+                        if r:
+                            d = s.recv(1 << 16)
+                            if not d:
+                                eof = True
+                                break
+                            out += d
+                            continue
+                        if _response_complete(bytes(out)):
+                            seen["t"] = seen["t"] or time.monotonic()
+                            if time.monotonic() - seen["t"] > 2.0:
+                                break
+                        elif not main_threads(baseline):
+                            break
+                    complete = _response_complete(bytes(out)) or (eof and bytes(out).startswith(b"HTTP/1."))
+                    serves = bytes(out).startswith(b"HTTP/1.") and complete
+                    if complete and not eof:
+                        # still open two seconds after the complete response: is a worker still sitting on it?
+                        kept_open = any("process_request_thread" in t.name for t in new_threads(baseline))
+                except (BrokenPipeError, ConnectionResetError):
+                    serves = False
+            finally:
+                s.close()
+        rebind = can_bind(bind, srv_port)
+        return {"raised": raised, "accepts": accepts, "serves": serves, "rebind": rebind, "thread_alive": alive,
+                "kept_open": kept_open}
     # 2. connect; if accepted try a request. "serves" is false without waiting for the deadline when
     #    no main thread exists that could ever accept the connection.
     s = connect(host, srv_port, deadline)
@@ -735,7 +790,8 @@ def run_lifecycle(case):
     deadline = time.monotonic() + IO_DEADLINE_S
     log = CallLog()
     H = _state["ScriptedHandler"]
-    handlers = [H(0, {"accept": "yes", "result": {"kind": "ret", "status": 200, "headers": [], "body": "6f6b"}}, log)]
+    hdrs = [[b"Content-Length".hex(), b"2".hex()]] if case.get("probe_version") == "1.1" else []
+    handlers = [H(0, {"accept": "yes", "result": {"kind": "ret", "status": 200, "headers": hdrs, "body": "6f6b"}}, log)]
     bind = case.get("bind", "::1")
     port = pick_port(bind)
     baseline = set(threading.enumerate())
@@ -761,7 +817,7 @@ def run_lifecycle(case):
                     out["steps"] = steps
                     out["exc_logs"] = _state["collector"].take()
                     return out
-                p = probe(port, bind, baseline, exc is not None, deadline)
+                p = probe(port, bind, baseline, exc is not None, deadline, version=case.get("probe_version", "1.0"))
                 if not held:
                     wait_request_threads_done(baseline, deadline)
                 steps.append({"op": op, "exc": exc, "probe": p})
